@@ -28,3 +28,141 @@ def mcnp_id_is_the_documented_number(z: int, a: int, state: int):
     n = int(nuclide(z, a, state).getMcnpId())
     assert n == mcnp_number(z, a, state), "ZZZAAA with the metastable offset"
     assert n // 1000 == z, "the atomic number is read back from the identifier"
+    ap = n % 1000
+    if not (z == 95 and a == 242):
+        # decoding, for ground and first metastable states of physical mass numbers (a <= 299)
+        assert implies(state <= 1, (state == 1) == (ap >= 400) and a == ap - 400 * state), "state and mass number are read back"
+    else:
+        assert implies(state <= 1, (state == 1) == (ap < 400)), "Am-242: the ground state carries the offset"
+
+
+def same_chain(z, a, z2, a2):
+    """two isotopes of one element less than 100 mass numbers apart (every real isotopic chain)"""
+    return z == z2 and -100 < a - a2 < 100
+
+
+@lemma(gen=GEN)
+def mcnp_ids_do_not_collide(z: int, a: int, state: int, z2: int, a2: int, state2: int):
+    """for ALL pairs in 1..118 x 1..299 x 0..3: equal MCNP ids only for equal (z, a, state), provided both are ground /
+    first metastable states OR the two belong to one isotopic chain (same z, mass numbers < 100 apart); outside that
+    (e.g. A=100 state 2 against A=200 state 1) the MCNP convention itself collides"""
+    assume(1 <= z <= 118 and 1 <= a <= 299 and 0 <= state <= 3 and 1 <= z2 <= 118 and 1 <= a2 <= 299 and 0 <= state2 <= 3)
+    n1, n2 = int(nuclide(z, a, state).getMcnpId()), int(nuclide(z2, a2, state2).getMcnpId())
+    assert implies(n1 == n2, z == z2), "different elements never share an id"
+    assert implies(n1 == n2 and ((state <= 1 and state2 <= 1) or same_chain(z, a, z2, a2)), a == a2 and state == state2)
+
+
+@lemma(gen=GEN)
+def aaazzzs_id_encodes_mass_number_atomic_number_and_state(z: int, a: int, state: int, z2: int, a2: int, state2: int):
+    """for ALL z in 1..118, a in 1..299, state in 0..3: the digits of getAAAZZZSId() are A, Z (3 digits), S"""
+    assume(1 <= z <= 118 and 1 <= a <= 299 and 0 <= state <= 3 and 1 <= z2 <= 118 and 1 <= a2 <= 299 and 0 <= state2 <= 3)
+    n = int(nuclide(z, a, state).getAAAZZZSId())
+    assert n == a * 10000 + z * 10 + state
+    assert n % 10 == state and (n // 10) % 1000 == z and n // 10000 == a, "decodes back to (a, z, state)"
+    n2 = int(nuclide(z2, a2, state2).getAAAZZZSId())
+    assert implies(n == n2, z == z2 and a == a2 and state == state2), "no two nuclides share an AAAZZZS id"
+
+
+# ------------------------------------------------------------------------------------------ names and labels (strings)
+# Pure string formats: enumerated COMPLETELY over the mass numbers 0..299 (the table ends at A = 295), the isomeric
+# states 0..3 of the table and both symbol lengths (1 and 2 letters; only the length and the letters-only nature of
+# the symbol enter the code).  One case split (choose) per symbol length x state x hundred of A; the 100 mass
+# numbers of a hundred are an unrolled loop over the real static methods.
+Element = repo("armi.nucDirectory.elements:Element")
+LAST = "0123456789" "ABCDEFGHIJ" "KLMNOPQRST" "UVWXYZabcd"
+SYMBOLS = ["U", "PU"]
+SUFFIX = ["", "M", "M2", "M3"]
+
+
+def element(symbol, z):
+    """an Element WITHOUT the registering constructor: symbol, z and the (initially empty) isotope list"""
+    return new(Element, symbol=symbol, z=z, nuclides=[])
+
+
+def leading_letters(s):
+    k = 0
+    while k < len(s) and s[k].isalpha():
+        k += 1
+    return s[:k]
+
+
+def leading_digits(s):
+    k = 0
+    while k < len(s) and s[k].isdigit():
+        k += 1
+    return s[:k]
+
+
+@lemma(gen={"symLen": [1, 2], "state": [0, 1, 2, 3], "hundred": [0, 1, 2]})
+def name_and_database_name_spell_out_symbol_mass_number_and_state(symLen: int, state: int, hundred: int):
+    sym = SYMBOLS[choose(symLen, 1, 2) - 1]
+    state = choose(state, 0, 3)
+    hundred = choose(hundred, 0, 2)
+    el = element(sym, 92)
+    seen = {}
+    for a in range(100 * hundred, 100 * hundred + 100):
+        name = NuclideBase._createName(el, a, state)
+        assert name not in seen
+        seen[name] = a
+        # decoding: the symbol is the leading run of letters, the mass number the following run of digits, then the state
+        assert leading_letters(name) == sym, "symbol read back"
+        rest = name[len(sym):]
+        assert int(leading_digits(rest)) == a and len(leading_digits(rest)) == len(str(a)), "mass number read back"
+        assert rest[len(leading_digits(rest)):] == SUFFIX[state] and SUFFIX.index(rest[len(leading_digits(rest)):]) == state, "state read back"
+        nb = new(NuclideBase, name=name)
+        db = nb.getDatabaseName()
+        assert db[0] == "n" and db[1:].upper() == name and db[1:] == name.capitalize(), "database name: n + the name (capitalised), same information"
+    assert len(seen) == 100
+
+
+@lemma(gen={"symLen": [1, 2], "state": [0, 1, 2, 3], "hundred": [0, 1, 2]})
+def label_encodes_symbol_state_and_the_low_digits_of_the_mass_number(symLen: int, state: int, hundred: int):
+    """the label keeps the last 3 (one-letter symbol) / last 2 (two-letter symbol) digits of A: within an isotopic
+    chain (mass numbers < 100 apart) it identifies (a, state); the hundreds digit of A is NOT recoverable from the
+    label of a two-letter element (known limitation: 'PU39' would also be Pu-139)"""
+    symLen = choose(symLen, 1, 2)
+    sym = SYMBOLS[symLen - 1]
+    state = choose(state, 0, 3)
+    hundred = choose(hundred, 0, 2)
+    el = element(sym, 94)
+    seen = {}
+    for a in range(100 * hundred, 100 * hundred + 100):
+        label = NuclideBase._createLabel(el, a, state)
+        assert label not in seen, "no collision within 100 consecutive mass numbers"
+        seen[label] = a
+        assert len(label) <= 4, "fits the 4 characters of the ISOTXS nuclide label"
+        assert label[:symLen] == sym and not label[symLen].isalpha(), "symbol read back (the next character is a digit)"
+        idx = LAST.index(label[-1])
+        assert idx // 10 == state and idx % 10 == a % 10, "state and last digit of A read back from the last character"
+        mid = label[symLen:-1]
+        assert mid.isdigit() and int(mid) == (a % (1000 if symLen == 1 else 100)) // 10, "the remaining low digits of A"
+        if symLen == 1:
+            assert int(mid) * 10 + idx % 10 == a, "one-letter symbols: the whole mass number"
+
+
+@lemma(gen={"symLen": [1, 2], "hundred": [0, 1, 2]})
+def serpent_id_spells_out_symbol_mass_number_and_metastability(symLen: int, hundred: int):
+    """getSerpentId, enumerated as above for the ground state and the first metastable state (the format has a single
+    'm' flag: states 1, 2, 3 of one (z, a) are not distinguished by it - not one of the directory's lookup keys)"""
+    sym = SYMBOLS[choose(symLen, 1, 2) - 1]
+    hundred = choose(hundred, 0, 2)
+    el = element(sym, 92)
+    seen = {}
+    for a in range(100 * hundred, 100 * hundred + 100):
+        for state in (0, 1):
+            sid = new(NuclideBase, element=el, a=a, state=state).getSerpentId()
+            assert sid not in seen
+            seen[sid] = (a, state)
+            head, tail = sid.split("-")
+            assert head.upper() == sym and head == sym.capitalize()
+            assert int(leading_digits(tail)) == a and tail[len(leading_digits(tail)):] == ("m" if state else "")
+    assert len(seen) == 200
+
+
+@lemma
+def mc2_ids_are_the_stored_library_labels():
+    """getMcc2Id / getMcc3Id* return what INuclide.__init__ stored (read from mcc-nuclides.yaml by the factory);
+    getMcc3Id is the ENDF/B-VII.1 label"""
+    nb = new(NuclideBase, mcc2id="U-2355", mcc3idEndfbVII0="U235_7", mcc3idEndfbVII1="U235_71")
+    assert nb.getMcc2Id() == "U-2355" and nb.getMcc3IdEndfbVII0() == "U235_7" and nb.getMcc3IdEndfbVII1() == "U235_71"
+    assert nb.getMcc3Id() == nb.getMcc3IdEndfbVII1()
